@@ -187,6 +187,9 @@ int nev_execute(program * prog, vm * machine, object * result)
         return 1;
     }
 
+    /* run-time diagnostics belong to the program being executed */
+    set_msg_buffer(&prog->msg_count, &prog->msg_array_size, &prog->msg_array);
+
     if (machine->initialized == 0)
     {
         machine->ip = 0;
